@@ -774,6 +774,155 @@ def check_C17(ctx):
                     "values are passed to scripts as JSON-CDC arguments built from Go big integers (not through Cadence literals)"])
 
 
+# ------------------------------------------------------------------------------------------
+# C40 literals
+LIT_FILES = ["text/Dec.tla", "text/NumTypes.tla", "text/Literals.tla", "text/MC_Literals.tla", "text/MC_Literals_int_q.cfg",
+             "text/MC_Literals_int_t.cfg", "text/MC_Literals_fix_q.cfg", "text/MC_Literals_fix_t.cfg", "text/MC_Literals_file.cfg"]
+
+
+def to_base(n, base):
+    ds = "0123456789abcdef"
+    if n == 0:
+        return "0"
+    out = ""
+    while n:
+        out = ds[n % base] + out
+        n //= base
+    return out
+
+
+def literal_cases(seed, quick):
+    rnd = random.Random(1000003 * seed + 40)
+    cases = []
+
+    def underscore(body):
+        if len(body) < 3 or rnd.random() < 0.5:
+            return body
+        i = rnd.randrange(1, len(body))
+        return body[:i] + "_" * rnd.choice([1, 1, 2]) + body[i:]
+
+    for t in sorted(NUM_TYPES):
+        signed, fixed, bits, scale = NUM_TYPES[t]
+        lo, hi = type_bounds(t)
+        if not fixed:
+            vals = {hi, hi + 1, hi - 1, -lo, -lo + 1, -lo - 1, 0, 1, hi * 16 + 15}
+            if bits == 0:
+                vals = {10 ** 100, (1 << 300) + 1, 0, 1, 12345678901234567890123456789}
+            for _ in range(2 if quick else 20):
+                vals.add(rnd.randrange(0, hi + 2))
+            for v in sorted(vals):
+                for prefix, base in (("", 10), ("0b", 2), ("0o", 8), ("0x", 16)):
+                    body = to_base(v, base)
+                    if base == 16 and rnd.random() < 0.5:
+                        body = body.upper()
+                    variants = {body, "0" * rnd.choice([1, 3, 64]) + body, underscore(body), body + "_", "_" + body if prefix else body}
+                    if not quick or base in (10, 16):
+                        variants.add("0" * 300 + body)                      # hundreds of digits
+                    for b in sorted(variants):
+                        for neg in (False, True):
+                            cases.append({"k": "I", "t": t, "neg": neg, "prefix": list(prefix), "body": list(b)})
+        else:
+            unit = 10 ** scale
+            svals = {hi, hi + 1, hi - 1, -lo, -lo + 1, -lo - 1, 0, 1, unit, unit - 1, (hi // unit) * unit + unit // 2, (hi // unit + 1) * unit,
+                     (-lo // unit) * unit + unit // 2, (hi // unit) * unit + (hi % unit) // 10 * 10 + 10}
+            for _ in range(3 if quick else 30):
+                svals.add(rnd.randrange(0, hi + 2))
+            for v in sorted(svals):
+                ip, fp = divmod(v, unit)
+                fs = str(fp).rjust(scale, "0")
+                fracs = {fs, fs.rstrip("0") or "0", fs + "0", fs + "1", fs[:max(1, scale // 2)], underscore(fs), fs[:-1] or "0"}
+                ints = {str(ip), "00" + str(ip), underscore(str(ip))}
+                for i_ in sorted(ints):
+                    for f_ in sorted(fracs):
+                        for neg in (False, True):
+                            cases.append({"k": "F", "t": t, "neg": neg, "ip": list(i_), "fp": list(f_)})
+    # string / character literals: tokens = ordinary code points (NFC-stable), simple escapes, \u{...} escapes
+    ordinary = [97, 122, 65, 48, 32, 33, 126, 233, 946, 8364, 20013, 128512, 65533]
+    simple = ["0", "\\", "t", "n", "r", "\"", "'"]
+    uni = ["0", "41", "7f", "80", "e9", "7FF", "800", "fFfF", "10000", "1F600", "10FFFF", "0041", "000041", "00000041", "D7FF", "E000",
+           "D800", "DBFF", "DC00", "DFFF", "110000", "FFFFFFFF", "000000041", "", "12G", "fffe"]
+    for l in simple + ["a", "x", "U", "e", "1", "N", " "]:
+        cases.append({"k": "S", "toks": [{"e": l}], "ch": False})
+    for u in uni:
+        cases.append({"k": "S", "toks": [{"u": list(u)}], "ch": False})
+        cases.append({"k": "S", "toks": [{"c": 97}, {"u": list(u)}, {"c": 98}], "ch": False})
+    for u in ("41", "e9", "1F600", "D800", "0"):
+        cases.append({"k": "S", "toks": [{"u": list(u)}], "ch": True})
+    for l in simple:
+        cases.append({"k": "S", "toks": [{"e": l}], "ch": True})
+    good_uni = ["41", "e9", "7FF", "800", "fFfF", "10000", "1F600", "10FFFF", "0041", "E000", "D7FF", "0"]
+    for _ in range(60 if quick else 1500):
+        toks = []
+        for _ in range(rnd.randrange(0, 9)):
+            r = rnd.random()
+            if r < 0.4:
+                toks.append({"c": rnd.choice(ordinary)})
+            elif r < 0.7:
+                toks.append({"e": rnd.choice(simple)})
+            else:
+                toks.append({"u": list(rnd.choice(good_uni if rnd.random() < 0.85 else uni))})
+        cases.append({"k": "S", "toks": toks, "ch": False})
+    return cases
+
+
+def lit_sig(f):
+    return {"kind": f["kind"], "ty": f.get("ty", ""), "class": f.get("class", ""), "dev": f["dev"], "why": f.get("why", ""),
+            "shape": f.get("shape", ""), "base": f.get("base", 0), "engine": f.get("engine", "")}
+
+
+def check_C40(ctx):
+    binary = ctx.build("text")
+    ri = ctx.tlc(LIT_FILES, "MC_Literals", "MC_Literals_int_q.cfg" if ctx.quick else "MC_Literals_int_t.cfg", workers=ctx.cores,
+                 tag="lit-int", timeout=3000)
+    rx = ctx.tlc(LIT_FILES, "MC_Literals", "MC_Literals_fix_q.cfg" if ctx.quick else "MC_Literals_fix_t.cfg", workers=ctx.cores,
+                 tag="lit-fix", timeout=3000)
+    cases = literal_cases(ctx.seed, ctx.quick)
+    cf = os.path.join(ctx.work, "cases.ndjson")
+    write_ndjson(cf, cases)
+    rf = ctx.tlc(LIT_FILES + [cf], "MC_Literals", "MC_Literals_file.cfg", workers=ctx.cores, tag="lit-cases", timeout=3000)
+    frows = table_rows(rf)
+    if len(frows) != len(cases):
+        raise Infra("case table has %d rows for %d cases" % (len(frows), len(cases)))
+    summary, fails = run_driver(ctx, binary, "literals", [tlc_out(ri), tlc_out(rx), tlc_out(rf)], "literals", timeout=3000)
+    for f in fails:
+        ctx.report(lit_sig(f), "%s literal `%s` for %s (%s): %s: %s" % (f["kind"], f["literal"][:80], f.get("ty", ""), f.get("engine", ""), f["dev"], f["msg"][:600]),
+                   {"literal": f["literal"], "type": f.get("ty"), "spec": f.get("why"), "observed": f["msg"]})
+    # negative control
+    ip = next(r for r in frows if r[0] == "IP" and r[6] and r[1] == "Int64" and len(r[7]) > 3 and not r[2])
+    fpr = next(r for r in frows if r[0] == "FP" and r[6] and r[1] == "UFix64" and len(r[7]) > 3)
+    sr = next(r for r in frows if r[0] == "S" and r[2] and len(r[3]) >= 2 and not r[4])
+    c1 = json.loads(json.dumps(ip)); c1[7][-1] = (c1[7][-1] + 1) % 10
+    c2 = json.loads(json.dumps(ip)); c2[6] = False
+    c3 = json.loads(json.dumps(fpr)); c3[7][0] = c3[7][0] % 9 + 1
+    c4 = json.loads(json.dumps(sr)); c4[3][0] += 1
+    nf = os.path.join(ctx.work, "negctl.ndjson")
+    write_ndjson(nf, [c1, c2, c3, c4])
+    _, nfails = run_driver(ctx, binary, "literals", [nf], "literals-negctl")
+    devs = {(f["kind"], f["dev"]) for f in nfails}
+    need = {("int", "wrong-value"), ("int", "accepts-specified-reject"), ("fixed", "wrong-value"), ("string", "wrong-value")}
+    if not need <= devs:
+        raise Infra("negative control failed: corrupted rows not all rejected: %s" % sorted(devs))
+    irows = table_rows(ri)
+    ctx.add_sample({"integer literal row": ["".join(irows[len(irows) // 2][1]) + "".join(irows[len(irows) // 2][2])] + irows[len(irows) // 2][3:5]})
+    ctx.add_sample({"generated integer literal": [ip[1], ("-" if ip[2] else "") + "".join(ip[3]) + "".join(ip[4])[:80], "accept", ip[6]]})
+    ctx.add_sample({"generated fixed-point literal": [fpr[1], ("-" if fpr[2] else "") + "".join(fpr[3]) + "." + "".join(fpr[4]), "accept", fpr[6], fpr[8]]})
+    ctx.add_sample({"string literal tokens": sr[1], "code points": sr[3]})
+    return ctx.finish({
+        "states": ri.distinct + rx.distinct + rf.distinct, "transitions": ri.generated + rx.generated + rf.generated - 3,
+        "traces_validated_against_impl": summary["rows"],
+        "evaluations": summary["checks"] + summary["values"] + summary["string_evals"],
+        "checker_runs": summary["checks"], "values_evaluated_in_scripts": summary["values"], "string_literal_runs": summary["string_evals"],
+        "distinct_nontrivial": summary["nontrivial"],
+        "rule": "distinct (type, literal text) pairs; non-trivial = the literal contains a digit (well-formed, or ill-formed only by an underscore / "
+                "digit-of-base rule) or, for strings, an escape sequence",
+        "distinct_cases": summary["distinct"], "generated_cases": len(cases),
+        "negative_control": "4 corrupted rows (int value digit, accept->reject, fixed value digit, string code point) all rejected",
+        "exhaustive": True,
+    }, assumptions=["literals are checked in the context `let x: T = <literal>` with T an integer type for integer literals and a fixed-point type for fixed-point literals",
+                    "string literal tokens use NFC-stable characters only (normalisation is property C19's subject)",
+                    "values of accepted literals are read back through script results"])
+
+
 META = {
     "C46": {
         "level_text": "TLC evaluates the RLP decoder specification (Rlp.tla: encoder = definition of canonical, DecodeString, one-level DecodeList, "
@@ -830,6 +979,21 @@ META = {
                       "Strings longer than the enumeration bound are covered by generated boundary cases only.",
         "technique": "TLA+ function specification model-checked with TLC; TLC-evaluated table compared with the real functions (E4)",
         "design_ref": "DESIGN.md section 5 C17",
+        "engine": "E4 table conformance",
+    },
+    "C40": {
+        "level_text": "Literals.tla specifies integer literals (prefix, digits of the base, underscores inside only, value by fold on exact decimal digit "
+                      "sequences), fixed-point literals (exact scaled value, scale rule), the per-type range check and string escape decoding as a "
+                      "token transducer. TLC enumerates every integer literal body up to 6 characters decimal / 4 after a prefix (7 / 5 thorough) over "
+                      "per-base class alphabets incl. underscore and an out-of-base digit, every fixed-point string up to 6 (7) characters over "
+                      "{0,1,9,_,.}, and seeded long literals (up to 300+ digits, all four bases, underscores, leading zeros) at the exact range "
+                      "bounds of all 24 numeric types plus string/character literals with every escape form. Each (literal, type, sign) goes through "
+                      "the real parser and checker (accept iff specified), accepted ones are evaluated in scripts on both engines and compared "
+                      "with the specified value.",
+        "level_note": "Trusted: TLC, Dec.tla, JSON printers, Go comparison loops. Only the context `let x: T = literal` is exercised; literals in "
+                      "other positions (arguments, array sizes, addresses) are not.",
+        "technique": "TLA+ function specification model-checked with TLC; TLC-evaluated table compared with the real parser/checker/runtime (E4)",
+        "design_ref": "DESIGN.md section 5 C40",
         "engine": "E4 table conformance",
     },
 }
